@@ -550,6 +550,13 @@ class _Rewrite(ast.NodeTransformer):
                 self.changed += 1
                 rows = [ast.Tuple(elts=[copy.deepcopy(q[i]) for q in seqs], ctx=ast.Load()) for i in range(len(seqs[0]))]
                 return ast.fix_missing_locations(ast.copy_location(ast.Tuple(elts=rows, ctx=ast.Load()), node))
+        # getattr(x, 'name') with a literal name is x.name
+        if isinstance(node.func, ast.Name) and node.func.id == 'getattr' and len(node.args) == 2 and not node.keywords \
+                and isinstance(node.args[1], ast.Constant) and isinstance(node.args[1].value, str) \
+                and node.args[1].value.isidentifier():
+            self.changed += 1
+            return ast.fix_missing_locations(ast.copy_location(
+                ast.Attribute(value=node.args[0], attr=node.args[1].value, ctx=ast.Load()), node))
         # a getter written in place
         lam = _getter_lambda(node)
         if lam is not None:
